@@ -56,3 +56,27 @@ Print Assumptions C10_plaineval_chan_refuted.
 Theorem C10_statement_refuted : ~ C10_statement.
 Proof. exact c10_contract_refuted. Qed.
 Print Assumptions C10_statement_refuted.
+
+(** Generated state. The history model and C10_named_partial rest on the fact that a statement keeps
+    nothing from its executions: a blocking operation selects on the cancellation channel of the
+    frame that executes it (Model.exec, [Block]; run.go _select copies the case vector and writes
+    f.done into the copy at every execution). Stated for the select vector: with the
+    implementation's design every execution uses its own channel; with a capture at the first
+    execution all later executions keep the first one — the closed channel of the cancelled
+    evaluation if the definition was first executed there, whence zero values for ever. The
+    correspondence exercises exactly that order (cancel kind CInDef in cold sessions). *)
+Theorem C10_generated_state_independent : forall s ds, sel_run false s ds = ds.
+Proof. exact select_state_independent. Qed.
+Print Assumptions C10_generated_state_independent.
+
+Theorem C10_capture_at_first_execution_breaks :
+  forall ds d, sel_run true (mkSel None) (d :: ds) = d :: map (fun _ => d) ds.
+Proof. exact select_once_keeps_first. Qed.
+Print Assumptions C10_capture_at_first_execution_breaks.
+
+(** a definition first executed inside the cancelled evaluation behaves as before afterwards *)
+Theorem C10_first_executed_when_cancelled :
+  y_hist start10 [HCancel CInDef; HUse KChanFn VEvalCtx; HUse KNamed VEval; HUse KChanFn VEvalCtx; HCancel CBusy; HUse KChanFn VEvalCtx]
+  = [true; true; true; true].
+Proof. exact first_executed_when_cancelled. Qed.
+Print Assumptions C10_first_executed_when_cancelled.
